@@ -1,6 +1,7 @@
 ---- MODULE ConfigRedactTrace ----
 (* Trace validation of real admin dumps against ConfigRedact (C20).  Events (harness/cmd/c19 -mode redact):
      new{id,init,form}      fresh MOSN started from a file with a TLS context (distinct real key) at every slot [p,i] in init
+     accepts{spell,ok}   json.Unmarshal of {"<spelling>": "k"} into v2.TLSConfig set PrivateKey
      start{ok}
      place{p,k,ok}       runtime update configuring position p with fresh keys at the elements k (listener adapter /
                          cluster manager adapter / UpdateTLSManager / SetExtend)
@@ -17,9 +18,9 @@ EXTENDS ConfigRedact, VTrace
 tvars == <<vars, l>>
 S(seq) == { seq[i] : i \in DOMAIN seq }
 
-TraceInit == /\ l = 1 /\ stored = {} /\ truth = {} /\ leaked = {} /\ redacted = 0 /\ hist = <<>> /\ form = "pem"
+TraceInit == /\ l = 1 /\ stored = {} /\ truth = {} /\ leaked = {} /\ redacted = 0 /\ hist = <<>> /\ form = "pem" /\ spell = "exact"
 
-FormTag == IF form = "pem" THEN "" ELSE ":key-" \o form
+FormTag == (IF form = "pem" THEN "" ELSE ":key-" \o form) \o (IF spell = "exact" THEN "" ELSE ":name-" \o spell)
 
 Slots(seq) == { <<seq[i][1], seq[i][2]>> : i \in DOMAIN seq }
 
@@ -28,6 +29,13 @@ TNew == /\ IsEvent("new")
         /\ stored' = Slots(Ev.init) /\ truth' = Slots(Ev.init) /\ leaked' = {} /\ redacted' = 0 /\ hist' = <<>>
         /\ form' = IF Has(Ev, "form") THEN Ev.form ELSE "pem"
         /\ form' \in KeyForms
+        /\ spell' = IF Has(Ev, "spell") THEN Ev.spell ELSE "exact"
+        /\ spell' \in KeySpells
+
+(* what the consumer of an untyped config (json.Unmarshal into v2.TLSConfig) makes of the spelling *)
+TAccepts == /\ IsEvent("accepts")
+            /\ Expect(Ev.ok = NameAccepted(Ev.spell), "key-name:" \o Ev.spell \o ":consumer-disagrees-with-model")
+            /\ UNCHANGED vars
 
 TStart == /\ IsEvent("start")
           /\ Expect(Ev.ok, "start:refused")
@@ -38,14 +46,14 @@ TPlace == /\ IsEvent("place")
           /\ Expect(Ev.ok, "place:" \o Ev.p \o ":refused")
           /\ stored' = Replace(stored, Ev.p, S(Ev.k))
           /\ truth' = Replace(truth, Ev.p, S(Ev.k))
-          /\ UNCHANGED <<leaked, redacted, hist, form>>
+          /\ UNCHANGED <<leaked, redacted, hist, form, spell>>
 
 TDump == /\ IsEvent("dump")
          /\ Ev.e \in Endpoints
          /\ LET inView == { s \in stored : s[1] \in ViewOf(Ev.e) } IN
               /\ Expect(Ev.status = 200, "dump:" \o Ev.e \o ":status")
-              /\ \A x \in S(Ev.leaked) : Expect(FALSE, "leak:" \o Ev.e \o ":" \o x \o FormTag)
-              /\ Expect(~Secret(form) \/ Ev.redacted >= Cardinality(inView), "placeholder-missing:" \o Ev.e \o FormTag)   \* every key in view is replaced by the placeholder
+              /\ \A x \in S(Ev.leaked) : Expect(x.p # "retired" /\ x.p \in Positions /\ ~SecretAt(x.p), "leak:" \o Ev.e \o ":" \o x.s \o FormTag)
+              /\ Expect(Ev.redacted >= Cardinality({ s \in inView : SecretAt(s[1]) }), "placeholder-missing:" \o Ev.e \o FormTag)   \* every key in view is replaced by the placeholder
               /\ Expect(Ev.live_diff = <<>>, "dump-altered-live-config:" \o Ev.e)
               /\ Expect(Ev.persisted_diff = <<>>, "dump-altered-persisted-config:" \o Ev.e)
          /\ UNCHANGED vars
@@ -57,6 +65,6 @@ TFinal == /\ IsEvent("final")
           /\ Expect(Ev.reload, "restart-from-persisted-file-fails" \o FormTag)
           /\ UNCHANGED vars
 
-TraceNext == TNew \/ TStart \/ TPlace \/ TDump \/ TFinal
+TraceNext == TNew \/ TAccepts \/ TStart \/ TPlace \/ TDump \/ TFinal
 TraceSpec == TraceInit /\ [][TraceNext]_tvars
 ====
